@@ -601,6 +601,18 @@ theorem C18_createNode_idem (root : Kids) (n : Str) (tag tag' : Nat) (a b : Nat)
   obtain ⟨o, ho, hsh, hres⟩ := key
   simp only [step, fetchNode_eq, isNodeAt, ho, hsh, Bool.not_false, if_true, hres]
 
+/-! ## the association lists really are dicts -/
+
+/-- **Every dict of the tree has distinct keys, every history** (both code versions): the model's
+`get?` (first match) therefore reads the tree exactly as a Python dict lookup does, and the flat
+listing `flatKids` has one line per entry. -/
+theorem C18_dicts_have_unique_keys (lg : Bool) (ops : List Op) : kidsOk (run lg [] ops).1 := by
+  have : ∀ root, kidsOk root → kidsOk (run lg root ops).1 := by
+    induction ops with
+    | nil => intro root h; exact h
+    | cons op ops ih => intro root h; exact ih _ (kidsOk_step lg root op h)
+  exact this [] (by simp [kidsOk])
+
 /-! ## the unrepaired code (D10) and non-vacuity -/
 
 /-- **D10, unrepaired order (`lg = true`)**: `create("new..x")` on an empty store raises
@@ -669,3 +681,4 @@ end Ioflo.Store
 #print axioms Ioflo.Store.C18_create_idem
 #print axioms Ioflo.Store.C18_createNode_idem
 #print axioms Ioflo.Store.C18_legacy_counterexample
+#print axioms Ioflo.Store.C18_dicts_have_unique_keys
